@@ -460,6 +460,7 @@ func (c *Ctx) Run() int {
 			"notes":                   c.Notes,
 			"stats":                   c.Stats,
 			"canary_failures":         canaryBad,
+			"anchor_file_audit":       c.audit(),
 			"exhaustive":              false,
 			"checker_cmd":             fmt.Sprintf("/verif/bin/otelcheck -property %s -tier %s", c.Property, c.Tier),
 			"trusted_base":            []string{"go/types, go/ssa and go/packages of golang.org/x/tools v0.29.0", "the rule implementations under /verif/checker", "documented behaviour of arrow-go, pdata and collector APIs named in the rules"},
@@ -483,4 +484,96 @@ var propertyAssumptions = map[string][]string{}
 func Describe(property, explanation string, assumptions ...string) {
 	propertyExplanations[property] = explanation
 	propertyAssumptions[property] = assumptions
+}
+
+
+// audit reports, for the files the property names as anchors, how many of the
+// repository functions declared there host at least one obligation of this run
+// (position inside the function's extent, or named as the obligation's
+// function). Functions that host none are listed: they are not evidence of a
+// violation, they are what the rules of this property did not look at.
+func (c *Ctx) audit() map[string]any {
+	out := map[string]any{}
+	data, err := os.ReadFile(filepath.Join(c.Verif, "properties.jsonl"))
+	if err != nil {
+		data, err = os.ReadFile("/verif/properties.jsonl")
+	}
+	if err != nil {
+		out["error"] = "properties.jsonl not readable"
+		return out
+	}
+	files := map[string]bool{}
+	for _, line := range strings.Split(string(data), "\n") {
+		var rec struct {
+			ID      string `json:"id"`
+			Anchors struct {
+				Files []string `json:"files"`
+			} `json:"anchors"`
+		}
+		if json.Unmarshal([]byte(line), &rec) == nil && rec.ID == c.Property {
+			for _, f := range rec.Anchors.Files {
+				files[f] = true
+			}
+		}
+	}
+	type ext struct {
+		name     string
+		file     string
+		from, to int
+	}
+	var fns []ext
+	for _, p := range c.progs {
+		if p == nil {
+			continue
+		}
+		for fn := range p.AllFns {
+			if fn.Blocks == nil || fn.Synthetic != "" || fn.Parent() != nil || fn.Syntax() == nil || !InRepo(FnPkgPath(fn)) || IsCanaryPath(FnPkgPath(fn)) {
+				continue
+			}
+			a := p.Fset.Position(fn.Syntax().Pos())
+			b := p.Fset.Position(fn.Syntax().End())
+			rel := strings.TrimPrefix(a.Filename, c.Repo+"/")
+			if !files[rel] {
+				continue
+			}
+			fns = append(fns, ext{FuncName(fn), rel, a.Line, b.Line})
+		}
+	}
+	sort.Slice(fns, func(i, j int) bool { return fns[i].file+fns[i].name < fns[j].file+fns[j].name })
+	touched := 0
+	var untouched []string
+	for _, f := range fns {
+		hit := false
+		for _, o := range c.Obs {
+			if o.Canary {
+				continue
+			}
+			if strings.Contains(o.Fn, f.name) || strings.Contains(o.Key, f.name) {
+				hit = true
+				break
+			}
+			if i := strings.LastIndex(o.Pos, ":"); i > 0 && o.Pos[:i] == f.file {
+				var ln int
+				fmt.Sscan(o.Pos[i+1:], &ln)
+				if ln >= f.from && ln <= f.to {
+					hit = true
+					break
+				}
+			}
+		}
+		if hit {
+			touched++
+		} else {
+			untouched = append(untouched, f.file+": "+f.name)
+		}
+	}
+	out["anchor_files"] = len(files)
+	out["functions_declared_in_anchor_files"] = len(fns)
+	out["functions_hosting_an_obligation"] = touched
+	if len(untouched) > 60 {
+		untouched = append(untouched[:60], fmt.Sprintf("… %d more", len(untouched)-60))
+	}
+	out["functions_hosting_none"] = untouched
+	out["note"] = "a function hosts an obligation when an obligation's position lies inside it or names it; call-graph rules (reachability, effect analysis, error liveness) cover many functions through one obligation per call site, so 'hosting none' overstates what was not analysed"
+	return out
 }
